@@ -1,5 +1,5 @@
 // target: src/ranger.rs
-// labels: ranger.process_message.*
+// labels: ranger.process_message.* recon.split.*
 // tier: quick
 // bound: reconciliation sessions driven through ranger::Store::process_message of the redb-backed store with every SyncConfig in
 // split_factor 2..=5 x max_set_size 1..=3: alice holds k0..k{n-1} (n in 4..=11, one author), bob lacks one entry (every choice) or holds
